@@ -1,6 +1,7 @@
 package props
 
 import (
+	"bytes"
 	"encoding/binary"
 	"fmt"
 	"runtime"
@@ -127,7 +128,7 @@ func runC06(c *mon.Ctx) {
 	runtime.LockOSThread()
 	// a call that never returns is caught while it runs (the meter below only sees calls that return)
 	mon.StartWatchdog(time.Duration(c06CPUSeconds*float64(time.Second)), "cpu-bound-exceeded")
-	c.Rule("every decoding entry point of C05, metered per call in a worker that runs nothing else (locked OS thread): bytes allocated = delta of runtime.MemStats.TotalAlloc (exact), CPU = delta of getrusage(RUSAGE_THREAD); worker under RLIMIT_AS = 4 GiB so that a reservation bomb dies at once and is attributed through the write-ahead log. Inputs (<= 64 KiB): LENGTH BOMBS - for major types 2,3,4,5 and tags, argument widths 1/2/4/8, declared lengths {2^8-1, 2^8, 2^16-1, 2^16, 2^24, 2^31-1, 2^31, 2^32-1, 2^63, 2^64-1} followed by 0..16 bytes, placed at top level, as the value of every known claim key of an otherwise valid token of either profile, inside a component, as a component list, and at each of the four COSE positions (also inside the payload); DEPTH BOMBS - nesting 1..600 of arrays / maps / tags in CBOR (top level, under unknown and known keys), 10^2..2*10^4 in JSON (arrays, objects); WIDTH - up to 64 KiB of one-byte items (nulls, empty maps, empty arrays, zeros) as top-level array, as component list, under unknown keys; JSON arrays of zeros, many short keys, many duplicate keys, long strings, long escapes, 10^5-digit numbers; plus the structure-aware mutants of C05. Oracle: allocated <= 1 MiB + 1 KiB x len(input) and CPU <= 5 s for every call (calls that return are metered after the fact; an in-process watchdog ends the worker as soon as ONE call has used more than 5 s of CPU, which is how a call that never returns is caught and attributed through the write-ahead log); no process death. A wall-clock watchdog firing is reported as inconclusive, never as a violation. Also honest VALID tokens that are merely large: one text claim (VSI, component description / type / version) of 1 000 .. 64 000 characters (ASCII, two-octet, control, blank), CBOR and JSON, through every entry point incl. the validating ones. distinct_nontrivial = distinct (class, position, major type, width, declared length) signatures")
+	c.Rule("every decoding entry point of C05, metered per call in a worker that runs nothing else (locked OS thread): bytes allocated = delta of runtime.MemStats.TotalAlloc (exact), CPU = delta of getrusage(RUSAGE_THREAD); worker under RLIMIT_AS = 4 GiB so that a reservation bomb dies at once and is attributed through the write-ahead log. Inputs (<= 64 KiB): LENGTH BOMBS - for major types 2,3,4,5 and tags, argument widths 1/2/4/8, declared lengths {2^8-1, 2^8, 2^16-1, 2^16, 2^24, 2^31-1, 2^31, 2^32-1, 2^63, 2^64-1} followed by 0..16 bytes, placed at top level, as the value of every known claim key of an otherwise valid token of either profile, inside a component, as a component list, and at each of the four COSE positions (also inside the payload); DEPTH BOMBS - nesting 1..600 of arrays / maps / tags in CBOR (top level, under unknown and known keys), 10^2..2*10^4 in JSON (arrays, objects); WIDTH - up to 64 KiB of one-byte items (nulls, empty maps, empty arrays, zeros) as top-level array, as component list, under unknown keys; JSON arrays of zeros, many short keys, many duplicate keys, long strings, long escapes, 10^5-digit numbers; plus the structure-aware mutants of C05. Oracle: allocated <= 1 MiB + 1 KiB x len(input) and CPU <= 5 s for every call (calls that return are metered after the fact; an in-process watchdog ends the worker as soon as ONE call has used more than 5 s of CPU, which is how a call that never returns is caught and attributed through the write-ahead log); no process death. A wall-clock watchdog firing is reported as inconclusive, never as a violation. Also honest VALID tokens that are merely large: one text claim (VSI, component description / type / version) of 1 000 .. 64 000 characters (ASCII, two-octet, control, blank), CBOR and JSON, through every entry point incl. the validating ones. VALUE BOMBS: short well-formed numbers whose value is huge (JSON exponents up to 1e999999999, integral numbers written with fraction / exponent; CBOR bignums, decimal fractions and bigfloats with 2^63 exponents, edge floats) under every numeric member / key of both profiles, the extensions and the populate shapes. distinct_nontrivial = distinct (class, position, major type, width, declared length) signatures")
 	if err := extprof.Register(extprof.ExtP2Name, extprof.ExtP1Name); err != nil {
 		c.Violation("harness/register", err.Error(), nil)
 		return
@@ -395,6 +396,64 @@ func runC06(c *mon.Ctx) {
 		for _, fam := range []string{"json", "cbor", "cose"} {
 			it := pick(fam)
 			m.run(fam, "good-input-after-error-path", it.bytes)
+		}
+	}
+	// ---- VALUE bombs: short, well-formed numbers whose VALUE (exponent, bignum
+	// magnitude), not their length, is what an expanding conversion would pay for
+	// (seeded fault C06-u: big.Float.Int on 1e400000000 = 166 MB for 11 bytes).
+	// Every integer / float member of both profiles, the extensions and the
+	// populate shapes, as member value, in an array and under an unknown member.
+	{
+		nums := []string{"1e400000000", "1E+999999999", "-1e400000000", "1e-400000000", "0.0e999999999", "0e-999999999", "1e4000000", "-1E4000000",
+			"1.5e308", "1e309", "1e19", "1e18", "12288.0", "1.2288e4", "122880e-1", "9223372036854775807e0", "4.2949672960e9", "1e2147483648", "1e-2147483649", "1.0E+0"}
+		members := []string{"psa-client-id", "psa-security-lifecycle", "psa-no-sw-measurement", "timestamp", "vendor-revision", "zz-last",
+			"a", "d", "f", "x", "q", "s", "u", "n", "l", "k1", "psa-boot-seed", "psa-nonce", "eat-profile", "unknown-member"}
+		for ni, num := range nums {
+			idx++
+			if !c.Mine(idx) {
+				continue
+			}
+			for mi, mem := range members {
+				a := g.Valid(1 + (ni+mi)%2)
+				doc := string(a.WireJSON())
+				bare := `{"` + mem + `":` + num + `}`
+				m.run("json", "value-bomb:json:bare", []byte(bare))
+				m.run("json", "value-bomb:json:first", []byte(`{"`+mem+`":`+num+`,`+doc[1:]))
+				m.run("json", "value-bomb:json:last", []byte(doc[:len(doc)-1]+`,"`+mem+`":`+num+`}`))
+				m.run("json", "value-bomb:json:in-array", []byte(`{"`+mem+`":[`+num+`,`+num+`]}`))
+				m.run("json", "value-bomb:json:as-string", []byte(`{"`+mem+`":"`+num+`"}`))
+			}
+			c.Sig(fmt.Sprintf("value-bomb|json|%d", ni))
+		}
+		// CBOR: bignums (tags 2, 3), decimal fractions / bigfloats (tags 4, 5) with
+		// huge exponents, floats at the edge, under every integer key
+		big := [][]byte{{}, {0}, bytes.Repeat([]byte{0xff}, 8), bytes.Repeat([]byte{0xff}, 9), bytes.Repeat([]byte{0xff}, 64), append([]byte{1}, make([]byte, 255)...)}
+		var vals []*refcbor.Node
+		for _, b := range big {
+			vals = append(vals, refcbor.Tagged(2, refcbor.Bstr(b)), refcbor.Tagged(3, refcbor.Bstr(b)))
+		}
+		for _, e := range []int64{400000000, -400000000, 9223372036854775807, -9223372036854775808, 2147483648} {
+			vals = append(vals, refcbor.Tagged(4, refcbor.Arr(refcbor.I(e), refcbor.I(1))), refcbor.Tagged(5, refcbor.Arr(refcbor.I(e), refcbor.I(1))),
+				refcbor.Tagged(4, refcbor.Arr(refcbor.I(e), refcbor.Tagged(2, refcbor.Bstr(bytes.Repeat([]byte{0xff}, 16))))))
+		}
+		for _, f := range []float64{1e308, -1e308, 1.8446744073709552e19, 9.223372036854775807e18, 4294967296, 65536, 5e-324} {
+			vals = append(vals, refcbor.Flt(f, 8))
+		}
+		keys := []int64{-75001, -75002, -75007, 2394, 2395, -75100, -75501, 1, -4, 600, 100, 11, 21, 31, 9, 7, 424242}
+		for vi, v := range vals {
+			idx++
+			if !c.Mine(idx) {
+				continue
+			}
+			for ki, k := range keys {
+				a := g.Valid(1 + (vi+ki)%2)
+				root := a.WireCBOR()
+				m.run("cbor", "value-bomb:cbor:bare", refcbor.Encode(refcbor.MapOf(refcbor.I(k), v)))
+				with := refcbor.MapOf(append([]*refcbor.Node{refcbor.I(k), v}, root.Items...)...)
+				m.run("cbor", "value-bomb:cbor:first", refcbor.Encode(with))
+				m.run("cbor", "value-bomb:cbor:last", refcbor.Encode(refcbor.MapOf(append(append([]*refcbor.Node{}, root.Items...), refcbor.I(k), v)...)))
+			}
+			c.Sig(fmt.Sprintf("value-bomb|cbor|%d", vi))
 		}
 	}
 	// ---- width
